@@ -6,6 +6,7 @@ import (
 	"go/constant"
 	"go/token"
 	"go/types"
+	"regexp"
 	"strings"
 
 	"golang.org/x/tools/go/packages"
@@ -617,4 +618,311 @@ func propsForKey(fkey string) []string {
 		return []string{"C08", "C10", "C13"}
 	}
 	return []string{"C04"}
+}
+
+// POLYOUT — a ring operation that is documented to *write* its result does not start by reading its output.
+//
+// `EvalPolyScalar(pol, pt, p3)` "writes the result in p3"; a Horner loop that begins with `MulScalar(p3, pt, p3)`
+// without first copying the leading coefficient folds whatever p3 held into the result (a reused share buffer leaks
+// old*pt^t into the next share).
+//
+// Rule: for every function of ring and ring/ringqp whose last parameter is a polynomial (the output by the package's
+// convention) and that is not an accumulating operation (name with ThenAdd/ThenSub/AndAdd, or a doc comment that
+// gives the output on the right-hand side of its formula), the first statement, in source order, that mentions the
+// output does not use it as a source: it occurs there only as the last argument of a call, as the receiver of
+// Copy/CopyLvl/Zero/Resize, or on the left of an assignment.
+func scanPolyOut(c *core.Ctx) []ob {
+	var out []ob
+	n := 0
+	c.FuncDecls(func(pk *packages.Package, file *ast.File, fd *ast.FuncDecl) {
+		rel := core.ShortPkg(pk.PkgPath)
+		if fd.Body == nil || fileIsTestSupport(c.Program, fd.Pos()) || !(c.IsFixture || rel == "ring" || rel == "ring/ringqp") {
+			return
+		}
+		info := pk.TypesInfo
+		fn, _ := info.Defs[fd.Name].(*types.Func)
+		if fn == nil {
+			return
+		}
+		sig := fn.Type().(*types.Signature)
+		if sig.Params().Len() < 2 || sig.Results().Len() > 0 {
+			return
+		}
+		o := sig.Params().At(sig.Params().Len() - 1)
+		ts := o.Type().String()
+		if !(strings.HasSuffix(ts, "ring.Poly") || strings.HasSuffix(ts, "ringqp.Poly")) {
+			return
+		}
+		// at least one other polynomial-ish input
+		name := fd.Name.Name
+		for _, acc := range []string{"ThenAdd", "ThenSub", "AndAdd", "ReadAndAdd"} {
+			if strings.Contains(name, acc) {
+				return
+			}
+		}
+		if fd.Doc != nil {
+			d := fd.Doc.Text()
+			on := regexp.QuoteMeta(o.Name())
+			if regexp.MustCompile(on+`\s*=\s*[^=\n]*\b`+on+`\b`).MatchString(d) || regexp.MustCompile(on+`\s*[-+]=`).MatchString(d) || strings.Contains(d, "in place") || strings.Contains(d, "in-place") {
+				return
+			}
+		}
+		fkey := core.FuncKey(pk, fd)
+		mentions := func(e ast.Node) bool {
+			f := false
+			ast.Inspect(e, func(x ast.Node) bool {
+				if id, ok := x.(*ast.Ident); ok && info.Uses[id] == o {
+					f = true
+				}
+				return !f
+			})
+			return f
+		}
+		// first simple statement mentioning the output
+		var first ast.Stmt
+		var find func(list []ast.Stmt)
+		find = func(list []ast.Stmt) {
+			for _, st := range list {
+				if first != nil {
+					return
+				}
+				switch v := st.(type) {
+				case *ast.ForStmt:
+					find(v.Body.List)
+				case *ast.RangeStmt:
+					if mentions(v.X) {
+						first = st
+						return
+					}
+					find(v.Body.List)
+				case *ast.IfStmt:
+					if v.Init != nil && mentions(v.Init) || mentions(v.Cond) {
+						// conditions read metadata (levels, lengths, identity tests): not a data use
+					}
+					find(v.Body.List)
+					if first == nil {
+						switch e := v.Else.(type) {
+						case *ast.BlockStmt:
+							find(e.List)
+						case *ast.IfStmt:
+							find([]ast.Stmt{e})
+						}
+					}
+				case *ast.BlockStmt:
+					find(v.List)
+				case *ast.SwitchStmt:
+					for _, cc := range v.Body.List {
+						find(cc.(*ast.CaseClause).Body)
+					}
+				default:
+					if mentions(st) {
+						first = st
+					}
+				}
+			}
+		}
+		find(fd.Body.List)
+		if first == nil {
+			return
+		}
+		n++
+		// source occurrences in that statement
+		asSource := false
+		var check func(e ast.Node, dest bool)
+		check = func(e ast.Node, dest bool) {
+			switch v := e.(type) {
+			case *ast.AssignStmt:
+				for _, l := range v.Lhs {
+					check(l, true)
+				}
+				for _, r := range v.Rhs {
+					check(r, false)
+				}
+			case *ast.ExprStmt:
+				check(v.X, false)
+			case *ast.CallExpr:
+				if se, ok := unparen(v.Fun).(*ast.SelectorExpr); ok {
+					switch se.Sel.Name {
+					case "Copy", "CopyLvl", "Zero", "Resize", "CopyValues":
+						check(se.X, true)
+					case "Level", "N", "Equal":
+						// metadata
+					default:
+						check(se.X, false)
+					}
+				}
+				// views built for the callee: len(), cap() are metadata
+				if id, ok := unparen(v.Fun).(*ast.Ident); ok && (id.Name == "len" || id.Name == "cap") {
+					return
+				}
+				for i, a := range v.Args {
+					check(a, i == len(v.Args)-1)
+				}
+			case ast.Expr:
+				// only the polynomial as a whole (the bare identifier) handed on as an operand: views of single
+				// residues (`p2.Coeffs[i]`) are resolved by the kernels' own rules
+				if id, ok := unparen(v).(*ast.Ident); ok && !dest && info.Uses[id] == o {
+					asSource = true
+				}
+			case *ast.RangeStmt:
+				check(v.X, false)
+			}
+		}
+		check(first, false)
+		key := "POLYOUT:" + fkey
+		if asSource {
+			out = append(out, violOb("POLYOUT", key, c.Rel(first.Pos()), fmt.Sprintf("%s is documented to write its result into %s, yet the first statement that mentions %s uses it as a source (%s): the result depends on what the receiver held before", fkey, o.Name(), o.Name(), strings.SplitN(exprStringStmt(first), "\n", 2)[0])))
+		} else {
+			out = append(out, okOb("POLYOUT", key, c.Rel(first.Pos()), "the first use of the output polynomial is a write", true))
+		}
+	})
+	c.Stats["polyout_fns"] = n
+	return out
+}
+
+func exprStringStmt(st ast.Stmt) string {
+	switch v := st.(type) {
+	case *ast.ExprStmt:
+		return exprString(v.X)
+	case *ast.AssignStmt:
+		var l, r []string
+		for _, e := range v.Lhs {
+			l = append(l, exprString(e))
+		}
+		for _, e := range v.Rhs {
+			r = append(r, exprString(e))
+		}
+		return strings.Join(l, ", ") + " " + v.Tok.String() + " " + strings.Join(r, ", ")
+	}
+	return fmt.Sprintf("%T", st)
+}
+
+func init() {
+	core.Register(&core.Rule{Name: "POLYOUT", Props: []string{"C01", "C02", "C15"},
+		Doc: "in ring and ring/ringqp, a non-accumulating operation whose last parameter is the output polynomial does not use that polynomial as a source in the first statement that mentions it (only as last call argument, receiver of Copy/Zero/Resize, or assignment target)",
+		Run: func(c *core.Ctx) []ob {
+			out := scanPolyOut(c)
+			out = append(out, control(c, "POLYOUT", scanPolyOut, "lvfixture.hornerInto")...)
+			out = append(out, core.Floor("POLYOUT", nil, "ring operations with an output polynomial", c.Stats["polyout_fns"], 40)...)
+			return out
+		}})
+}
+
+// STRIDEGRID — an index that advances by gap = A / B starts on the grid: at 0 or at A.
+//
+// The CKKS decoder reads the real parts of a sparsely packed vector at 0, gap, 2·gap, … and the imaginary parts at
+// maxCols, maxCols+gap, … with gap = maxCols / slots. Starting the second walk at `slots` (as the CRT variant, whose
+// coefficients are compacted, does) is the same thing for full packing (slots = maxCols) and reads real-part
+// coefficients for every sparse one.
+//
+// Rule: in a `for` statement whose post statement advances an index by a local `g` defined as the quotient `A / B`,
+// that index starts at 0, at A, or at an expression that is a sum/multiple of A.
+func scanStrideGrid(c *core.Ctx) []ob {
+	var out []ob
+	n := 0
+	c.FuncDecls(func(pk *packages.Package, file *ast.File, fd *ast.FuncDecl) {
+		if fd.Body == nil || fileIsTestSupport(c.Program, fd.Pos()) || inExamples(pk) {
+			return
+		}
+		info := pk.TypesInfo
+		fkey := core.FuncKey(pk, fd)
+		// locals defined once as a quotient
+		quot := map[types.Object]ast.Expr{}
+		cnt := map[types.Object]int{}
+		ast.Inspect(fd.Body, func(x ast.Node) bool {
+			if as, ok := x.(*ast.AssignStmt); ok && len(as.Lhs) == len(as.Rhs) {
+				for i, l := range as.Lhs {
+					if id, ok := l.(*ast.Ident); ok {
+						o := info.Defs[id]
+						if o == nil {
+							o = info.Uses[id]
+						}
+						if o == nil {
+							continue
+						}
+						cnt[o]++
+						if be, ok := unparen(as.Rhs[i]).(*ast.BinaryExpr); ok && be.Op == token.QUO {
+							quot[o] = be.X
+						}
+					}
+				}
+			}
+			return true
+		})
+		ord := 0
+		ast.Inspect(fd.Body, func(x ast.Node) bool {
+			fs, ok := x.(*ast.ForStmt)
+			if !ok || fs.Init == nil || fs.Post == nil {
+				return true
+			}
+			init, ok1 := fs.Init.(*ast.AssignStmt)
+			post, ok2 := fs.Post.(*ast.AssignStmt)
+			if !ok1 || !ok2 || len(init.Lhs) != len(init.Rhs) || len(post.Lhs) != len(post.Rhs) {
+				return true
+			}
+			for pi, pl := range post.Lhs {
+				pid, ok := pl.(*ast.Ident)
+				if !ok {
+					continue
+				}
+				idx := info.Uses[pid]
+				// idx = idx + g  /  idx += g
+				var g types.Object
+				rhs := unparen(post.Rhs[pi])
+				if post.Tok == token.ADD_ASSIGN {
+					if gid, ok := rhs.(*ast.Ident); ok {
+						g = info.Uses[gid]
+					}
+				} else if be, ok := rhs.(*ast.BinaryExpr); ok && be.Op == token.ADD {
+					if l, ok := unparen(be.X).(*ast.Ident); ok && info.Uses[l] == idx {
+						if gid, ok := unparen(be.Y).(*ast.Ident); ok {
+							g = info.Uses[gid]
+						}
+					}
+				}
+				if g == nil || quot[g] == nil || cnt[g] != 1 {
+					continue
+				}
+				A := exprString(quot[g])
+				// initial value of idx
+				var start ast.Expr
+				for ii, il := range init.Lhs {
+					if iid, ok := il.(*ast.Ident); ok && info.Defs[iid] == idx || ok && info.Uses[iid] == idx {
+						start = init.Rhs[ii]
+					}
+				}
+				if start == nil {
+					continue
+				}
+				n++
+				ord++
+				key := fmt.Sprintf("STRIDEGRID:%s#%d", fkey, ord)
+				st := exprString(start)
+				onGrid := st == "0" || st == A || strings.HasPrefix(st, A+" + ") || strings.HasPrefix(st, A+" * ") || strings.HasSuffix(st, " * "+A)
+				if tv, ok := info.Types[start]; ok && tv.Value != nil && tv.Value.ExactString() == "0" {
+					onGrid = true
+				}
+				if onGrid {
+					out = append(out, withProps(okOb("STRIDEGRID", key, c.Rel(fs.Pos()), fmt.Sprintf("the index that advances by %s = %s/… starts at %s", g.Name(), A, st), true), propsForKey(fkey)...))
+				} else {
+					out = append(out, withProps(violOb("STRIDEGRID", key, c.Rel(start.Pos()), fmt.Sprintf("%s: the index %s advances by %s = %s / … but starts at %s, which is neither 0 nor %s: it walks between the grid points for every sparse packing", fkey, pid.Name, g.Name(), A, st, A)), propsForKey(fkey)...))
+				}
+			}
+			return true
+		})
+	})
+	c.Stats["stridegrid_loops"] = n
+	return out
+}
+
+func init() {
+	core.Register(&core.Rule{Name: "STRIDEGRID", Props: []string{"C07", "C06", "C18"},
+		Doc: "a for-loop index advanced by a local defined as the quotient A / B starts at 0, at A, or at a sum/multiple of A",
+		Run: func(c *core.Ctx) []ob {
+			out := scanStrideGrid(c)
+			for _, o := range control(c, "STRIDEGRID", scanStrideGrid, "lvfixture.readHalves") {
+				out = append(out, withProps(o, "C07", "C06", "C18"))
+			}
+			return out
+		}})
 }
